@@ -23,9 +23,21 @@ class FutureBase;
 template <typename Result>
 class FutureImplBase;
 constexpr size_t kOnceFunctionInlineSize = 56;
+// ghost: callables currently stored in OnceFunctions (created and neither run nor cleaned up yet)
+struct OnceGhost {
+  static int& live() {
+    static int n = 0;
+    return n;
+  }
+};
 struct OnceHolderBase {
+  OnceHolderBase() {
+    ++OnceGhost::live();
+  }
   virtual void invoke(bool run) = 0;
-  virtual ~OnceHolderBase() {}
+  virtual ~OnceHolderBase() {
+    --OnceGhost::live();
+  }
 };
 template <typename F>
 struct OnceHolder : OnceHolderBase {
